@@ -165,7 +165,11 @@ def vConnectOutbound (p : Connect) : VRes := do
      vOptLen w.correlationData
      vUserProps w.userProps
      okIf (w.topic.length ≤ maxStr)
-     vOptLen w.payload)
+     vOptLen w.payload
+     okIf (isValidTopic w.topic)
+     (match w.responseTopic with
+      | none => .ok ()
+      | some rt => okIf (isValidTopic rt)))
 
 def vAuthOutbound (p : Auth) : VRes := do
   okIf p.authMethod.isSome
